@@ -86,7 +86,9 @@ pub fn lex_number(source: &[char]) -> Option<FoundToken> {
 
     // Find the longest possible valid number
     while !s.is_empty() {
-        if let Ok(n) = s.parse::<f64>() {
+        // A literal such as `1e999` parses to infinity, which is not a number anyone wrote (and
+        // which JSON cannot represent): take the longest prefix with a finite value instead.
+        if let Some(n) = s.parse::<f64>().ok().filter(|n| n.is_finite()) {
             let precision = s.chars().rev().position(|c| c == '.').unwrap_or_default();
 
             return Some(FoundToken {
